@@ -6,7 +6,7 @@ from ..core import AnalysisError, norm, walk_no_nested, calls_in, Func
 
 META = {
     'design_ref': 'DESIGN.md §5 C11',
-    'technique': 'effect analysis over the class call graph for the changed-flag discipline; shape-case abstract interpretation of remove / replace / append and of value references on symbolic token lists (eleven layouts, duplicates, after-edit state), compared at value level with a reference list model; regular-language checks for the two list tokenizers (coverage of every line by the whole function incl. special cases, group tiling, path-based emission of every group once in order, separator never inside a word); interpretation of the value-line wrapper on symbolic lines of every shape and position (no exception, conservation, comment classification, text handed to the list tokenizer) and of the view constructor on item-less token lists; CFG validate-before-commit rule for the write-back; frame rule (no persistent writes) on the read path of a list view; one-computation-per-memo-slot rule; line-primitive rule; write-back scenarios for a re-parse with two fields / two paragraphs and for a list without values; layouts that end on a comment line; the value factory interpreted with a model parser per list kind (one value exactly, else ValueError)',
+    'technique': 'effect analysis over the class call graph for the changed-flag discipline; shape-case abstract interpretation of remove / replace / append and of value references on symbolic token lists (eleven layouts, duplicates, after-edit state), compared at value level with a reference list model; regular-language checks for the two list tokenizers (coverage of every line by the whole function incl. special cases, group tiling, path-based emission of every group once in order, separator never inside a word); interpretation of the value-line wrapper on symbolic lines of every shape and position (no exception, conservation, comment classification, text handed to the list tokenizer) and of the view constructor on item-less token lists; CFG validate-before-commit rule for the write-back; frame rule (no persistent writes) on the read path of a list view; one-computation-per-memo-slot rule; line-primitive rule; write-back scenarios for a re-parse with two fields / two paragraphs and for a list without values; layouts that end on a comment line; the value factory interpreted with a model parser per list kind (one value exactly, else ValueError); removal through a value reference after the references were collected AND while the iterator stands at the reference (closures read the enclosing variables when they are called); deferred code (lambda, nested function) is not a call the accessor makes',
     'level_text': 'Static decision: every editing entry point marks the view as changed and nothing else does, so an unedited view never '
                   'touches the document; removing, replacing or appending a value (directly or through a reference) leaves exactly the '
                   'reference list of values in a well-formed token list, for layouts with and without leading blanks, separators, comment '
